@@ -15,6 +15,9 @@ EXPLANATION = (
     "all/any/count/sum/min/max; a Vec that is sorted before any other use. Order-sensitive: first/last/nth/find/"
     "fold, next() outside a loop header, collect into a sequence, a break that lets element data escape, a body "
     "that assigns outer variables, or a body that reaches an external effect (process spawn, file write). "
+    "An assignment to outer state is accepted when it is a running extremum: taken only while the kept value is None or when "
+    "the current element's KEY is strictly below / above the kept key (the minimum of distinct keys does not depend on the "
+    "order; `first element seen` alone does). "
     "Two order-sensitive shapes are accepted structurally: find/find_map/position whose result is only tested, Some "
     "leading to an Err return (Err iff some element satisfies the predicate); and an element picked by next() as the "
     "reference of an all-equal check - in the function's REGION it flows only into ==/!= comparisons and error text, and "
